@@ -57,7 +57,7 @@ for _label, _is_array, _ref, _cls in (('declaration, scalar', False, False, 'PAR
         raises={}))
 
 # ---- 2. CIMParameter.tocimxml(as_value=True): PARAMVALUE with the value child that the shape of the value calls for
-VALUE_PARAM = dict(PARAM, qualifiers=Ref('NocaseDict'))
+VALUE_PARAM = PARAM
 
 
 def paramvalue_c(child, child_name):
@@ -74,8 +74,6 @@ def paramvalue_c(child, child_name):
 item_path_tocimxml_i = Contract(O + 'CIMInstanceName.tocimxml', returns=Ref('Element'), trusted=True,
                                 requires=[('the-complete-path-is-encoded', 'not ignore_host and not ignore_namespace')],
                                 notes='host and namespace of a reference value are part of the value')
-item_path_tocimxml_c = Contract(O + 'CIMClassName.tocimxml', returns=Ref('Element'), trusted=True,
-                                requires=[('the-complete-path-is-encoded', 'not ignore_host and not ignore_namespace')])
 value_path_tocimxml_i = Contract(O + 'CIMInstanceName.tocimxml', returns=Ref('Element'), trusted=True,
                                  requires=[('the-complete-path-is-encoded',
                                             'self is caller_self.value and not ignore_host and not ignore_namespace')])
@@ -86,9 +84,6 @@ value_reference_of_path_c = Contract(X + 'VALUE_REFERENCE.__init__', trusted=Tru
 value_refarray_c = Contract(
     X + 'VALUE_REFARRAY.__init__', trusted=True, raises={},
     requires=[('one-child-element-per-array-item-in-order', 'len(data) == len(caller_self.value)')])
-emb_value_tocimxml_c = Contract(O + 'CIMInstance.tocimxml', returns=Ref('Element'), trusted=True,
-                                requires=[('the-value-itself-is-encoded-as-a-bare-INSTANCE',
-                                           'self is caller_self.value and ignore_path')])
 ONE_PER_ITEM = [('one-element-per-item-so-far', 'len(array_xml) == _i')]
 
 CONTRACTS.append(Contract(
@@ -427,3 +422,26 @@ CONTRACTS.append(Contract(
     callees={'tocimxml': child_tocimxml_c, 'CLASS.__init__': class_c}, kinds=ANY_CHILD,
     ensures=[('a-CLASS-element', 'isinstance(result, _cim_xml.CLASS)')],
     raises={}))
+
+# ---- NOT LOADED (the loader reads CONTRACTS and CLASS_SPECS only): an obligation that is REFUTED on the unchanged tree.
+# DSP0201 and the docstring of CIMInstance.tocimxml ("INSTANCE ... is the required element for representing embedded
+# instances") call for a bare INSTANCE inside the VALUE of an embedded instance; CIMParameter.tocimxml (and
+# CIMProperty.tocimxml) call self.value.tocimxml() without ignore_path=True, so an embedded instance that has a path is
+# written as VALUE.NAMEDINSTANCE / VALUE.OBJECTWITHLOCALPATH / VALUE.INSTANCEWITHPATH, which pywbem's own parser rejects
+# ("Invalid top-level element 'VALUE.NAMEDINSTANCE' in embedded object value").  Recorded as the bounded known finding
+# known:embedded-instance-with-path-sent-as-VALUE.x-element.  To activate: CONTRACTS.extend(REFUTED_ON_THE_UNCHANGED_TREE),
+# CLASS_SPECS.update(REFUTED_CLASS_SPECS); the refuted obligation is
+# CIMParameter.tocimxml::pre@CIMInstance.tocimxml#call4::CIMInstance.tocimxml#an-embedded-instance-is-encoded-as-a-bare-INSTANCE
+emb_bare_tocimxml_c = Contract(
+    O + 'CIMInstance.tocimxml', returns=Ref('Element'), trusted=True,
+    requires=[('an-embedded-instance-is-encoded-as-a-bare-INSTANCE', 'ignore_path or self.path is None')])
+REFUTED_CLASS_SPECS = {'CIMInstance': {'path': Opt(Ref('CIMInstanceName'))}}
+REFUTED_ON_THE_UNCHANGED_TREE = [Contract(
+    O + 'CIMParameter.tocimxml', label='value, scalar embedded object, bare INSTANCE',
+    params={'self': Obj('CIMParameter', is_array=Lit(False), value=Union(NoneT, Ref('CIMInstance'), Ref('CIMClass')),
+                        **dict(VALUE_PARAM, type=Lit('string'), embedded_object=Str)),
+            'as_value': Lit(True)},
+    callees={'VALUE.__init__': value_c, 'PARAMVALUE.__init__': paramvalue_c('VALUE', 'VALUE'),
+             'CIMInstance.tocimxml': emb_bare_tocimxml_c, 'CIMClass.tocimxml': emb_cls_tocimxml_c, 'toxml': toxml_c},
+    ensures=[('a-PARAMVALUE-element', 'isinstance(result, _cim_xml.PARAMVALUE)')],
+    raises={})]
